@@ -67,6 +67,29 @@ def check_bez(case):
     return dis
 
 
+def check_shape_points(r, c):
+    """point(t) of round SHAPES: the equivalent path of an ellipse is four quarter arcs of equal length, each walked by
+    its own parameter, so point(t) is the point at parameter angle 2 pi t (SVG 2 start point and direction)"""
+    dis = []
+    for nm, sh, rx, ry in (("Ellipse", svg.Ellipse(c[0], c[1], 2 * r, r), 2 * r, r), ("Circle", svg.Circle(c[0], c[1], r), r, r),
+                           ("Ellipse(tall)", svg.Ellipse(c[0], c[1], r, 3 * r), r, 3 * r)):
+        for form, obj in ((nm + ".point", sh), ("Path(%s).point" % nm, svg.Path(sh))):
+            for j in range(41):
+                t = j / 40.0
+                try:
+                    q = obj.point(t, error=1e-7) if form.startswith("Path(") else obj.point(t)
+                except engine.CaseTimeout:
+                    raise
+                except Exception as ex:
+                    dis.append({"clause": "Raises", "detail": "%s(%s) raised %s" % (form, t, type(ex).__name__)})
+                    break
+                w = (c[0] + rx * math.cos(2 * math.pi * t), c[1] + ry * math.sin(2 * math.pi * t))
+                if q is None or abs(q.x - w[0]) > 1e-6 * max(rx, ry) or abs(q.y - w[1]) > 1e-6 * max(rx, ry):
+                    dis.append({"clause": "ShapeWalk", "detail": "%s(%s) = %r, expected %r (rx=%r, ry=%r)" % (form, t, q, w, rx, ry)})
+                    break
+    return dis
+
+
 def check_circ(case):
     r, k, dirn, rot = case["arg"]
     r = float(rat(r))
@@ -79,6 +102,8 @@ def check_circ(case):
     def pt(a):
         return P(c[0] + r * math.cos(a), c[1] + r * math.sin(a))
     dis = []
+    if k == 4 and rot == 0 and dirn == 1:
+        dis += check_shape_points(r, c)
     arcs = [("native", svg.Arc(pt(a0), pt(a0 + signed), P(*c), P(c[0] + r, c[1]), P(c[0], c[1] + r), signed))]
     if k < 4:
         arcs.append(("svg", svg.Arc(pt(a0), r, r, 0, k > 2, dirn > 0, pt(a0 + signed))))
@@ -155,8 +180,14 @@ def check_hist(case):
     hist = case["hist"]
     p = svg.Path(path_of_word([1]))
     dis = []
+    K = 1
     try:
         for name, w in hist:
+            if name == "scale2":
+                p *= svg.Matrix.scale(2)
+                p.reify()
+                K *= 2
+                continue
             if name == "query":
                 p.point(0.5)
             elif name == "length":
@@ -164,21 +195,31 @@ def check_hist(case):
             elif name == "append":
                 cur = p.current_point
                 d = DIRS[w[-1] - 1]
-                p.append(svg.Line(None, svg.Point(cur.x + d[0], cur.y + d[1])))
+                p.append(svg.Line(None, svg.Point(cur.x + K * d[0], cur.y + K * d[1])))
             elif name == "extend_str":
                 d = DIRS[w[-1] - 1]
-                p += "l%d,%d" % d[:2]
+                p += "l%d,%d" % (K * d[0], K * d[1])
             elif name == "delete_last":
                 del p[len(p) - 1]
             elif name == "replace_last":
                 last = p[len(p) - 1]
                 d = DIRS[w[-1] - 1]
-                p[len(p) - 1] = svg.Line(svg.Point(last.start), svg.Point(last.start.x + d[0], last.start.y + d[1]))
+                p[len(p) - 1] = svg.Line(svg.Point(last.start), svg.Point(last.start.x + K * d[0], last.start.y + K * d[1]))
     except engine.CaseTimeout:
         raise
     except Exception as ex:
         return [{"clause": "Raises", "detail": "history %s raised %s: %s" % ([h[0] for h in hist], type(ex).__name__, str(ex)[:60])}]
     dis += check_points(p, case["exp"], "path after %s" % [h[0] for h in hist])
+    # the length after the history is the length of the CURRENT segments
+    try:
+        tot = K * sum(DIRS[x - 1][2] for x in case["arg"] if x)
+        L = p.length()
+        if abs(L - tot) > 1e-9 * max(1.0, tot):
+            dis.append({"clause": "PathLength", "detail": "after %s: length() = %r, the current segments measure %r" % ([h[0] for h in hist], L, tot)})
+    except engine.CaseTimeout:
+        raise
+    except Exception as ex:
+        dis.append({"clause": "Raises", "detail": "length after %s raised %s" % ([h[0] for h in hist], type(ex).__name__)})
     return dis
 
 
